@@ -102,6 +102,18 @@ int main (int argc, char **argv)
 			P = qsx_read_lp (in);
 			printf ("LP %s\n", P ? "OK" : "ERR");
 		}
+		else if (!strcmp (op, "GETD"))
+		{
+			/* GETD <p/q> : mpq_get_d as an exact rational (C16: reduced-precision copies) */
+			mpq_t a, b;
+			double d;
+			mpq_init (a); mpq_init (b);
+			qsx_parse_q (qsx_tok[1], a);
+			d = mpq_get_d (a);
+			mpq_set_d (b, d);
+			printf ("GETD "); mpq_out_str (qsx_out, 10, b); putchar ('\n');
+			mpq_clear (a); mpq_clear (b);
+		}
 		else if (!strcmp (op, "MKFILE"))
 		{
 			/* MKFILE <name> <hex bytes | -> : create a file in the scratch directory (scripts stay self-contained) */
